@@ -114,7 +114,9 @@ def _mutate(draw, argw, ops, y):
         lim = n0 + oi
         if k != "extsi":
             if refs[0] != refs[1]:
-                choices.append(("swap", oi, None, None))
+                # operand swaps are weighted up: they are the rewiring that an order-insensitive matcher would let through
+                # (harmless for addi/muli, function-changing for subi)
+                choices.extend([("swap", oi, None, None)] * (8 if k == "subi" else 3))
             for pos in (0, 1):
                 for c in range(lim):
                     if c != refs[pos] and widths[c] == w:
